@@ -110,11 +110,11 @@ static long pgen_L1 (PgenCb cb, void *user, int classes)
               for (dv = 0; dv < ndv; dv++) {
                 /* declared alignment variants only for the all-array plain form */
                 nav = 1;
-                if (dv == 0 && sp == 0 && vec[vi][0] == SK_S && (nsrc < 2 || vec[vi][1] == SK_S)) nav = 3;
+                if (dv == 0 && sp == 0 && vec[vi][0] == SK_S && (nsrc < 2 || vec[vi][1] == SK_S)) nav = 4;
                 for (av = 0; av < nav; av++) {
                   VProg p;
                   int args[4], na = 0, s[3] = { -1, -1, -1 };
-                  int al = av == 1 ? 16 : av == 2 ? 32 : 0;
+                  int al = av == 1 ? 16 : av == 2 ? 32 : av == 3 ? 1 : 0;	/* 1: below the element size, the array may start anywhere */
                   memset (&p, 0, sizeof (p));
                   p.is2d = is2d;
                   if (o->flags & ORC_STATIC_OPCODE_ACCUMULATOR) {
@@ -147,6 +147,12 @@ static long pgen_L1 (PgenCb cb, void *user, int classes)
                   }
                   vprog_addinsn (&p, o->name, mult == 2 ? ORC_INSTRUCTION_FLAG_X2 : mult == 4 ? ORC_INSTRUCTION_FLAG_X4 : 0,
                       na, args[0], na > 1 ? args[1] : -1, na > 2 ? args[2] : -1, na > 3 ? args[3] : -1);
+                  if (av == 3) {
+                    /* "align 1" differs from the default only for arrays of wider elements */
+                    int wide = 0, q;
+                    for (q = 0; q < p.nv; q++) if ((p.v[q].kind == VK_S || p.v[q].kind == VK_D) && p.v[q].size > 1) wide = 1;
+                    if (!wide) continue;
+                  }
                   pg_name (&p, "L1", count);
                   cb (&p, user);
                   count++;
